@@ -130,7 +130,7 @@ func c06Truthiness(c *Ctx, T *ssa.Function) {
 		case "(*github.com/ericlagergren/decimal.Big).Cmp":
 			if c.derivedFrom(call.Call.Args[0], v) {
 				for _, rt := range decOrigins(c).Roots(call.Call.Args[1]) {
-					if rt.Kind == "call" && rt.Fn != nil && (rt.Fn.Name() == "newDecimalBig" || strings.HasSuffix(rt.Fn.String(), "decimal.New") || strings.HasSuffix(rt.Fn.String(), "decimal.WithContext")) {
+					if rt.Kind == "call" && rt.Fn != nil && (rt.Fn.Name() == c.P.alias("newDecimalBig") || strings.HasSuffix(rt.Fn.String(), "decimal.New") || strings.HasSuffix(rt.Fn.String(), "decimal.WithContext")) {
 						zeroOK = c.zeroConstruction(call.Call.Args[1])
 					}
 				}
